@@ -91,7 +91,7 @@ C04.vis: parts that are not PER-visible (X.691 10.3.21; a PATTERN constraint sta
     size_marker(m, ctx);
     crate::rules::c09::value_chain(m, ctx, "C04.scope");
     let consts = const_resolver(m);
-    let inl = inline_all(m, &["ASN1Value"]);
+    let inl = inline_all(m, &["ASN1Value", "SetOperation", "SubtypeElements", "ElementOrSetOperation"]);
     for k in ["fold_constraint_set", "intersect_single_and_range", "union_single_and_range", ".min_max", ".max", ".min"] {
         if !inl.contains_key(k) {
             ctx.fail_closed("C04.fold", &format!("anchor missing: {}", k));
@@ -199,7 +199,10 @@ C04.vis: parts that are not PER-visible (X.691 10.3.21; a PATTERN constraint sta
                             ctx.violate("C04.fold", &format!("{}:not-tight", shape), &fold.file, fold.line,
                                 &format!("{} folds to {}..{}; the PER-visible effective constraint is {}..{}", key, b2(lo, "MIN"), b2(hi, "MAX"), b2(want_lo, "MIN"), b2(want_hi, "MAX")));
                         }
-                        let want_ext = if op == "Except" { a.ext } else { a.ext || b.ext };
+                        // the lexer's element parsers take a trailing `, ...` with the element they are reading: a marker on the
+                        // last operand *is* the marker of the whole element set, also when that operand follows EXCEPT and is
+                        // itself ignored (`(1..5 EXCEPT 3, ...)` is extensible)
+                        let want_ext = a.ext || b.ext;
                         if ext != want_ext {
                             ctx.violate("C04.ext", &format!("{}:extensible", shape), &fold.file, fold.line,
                                 &format!("{} folds to extensible={}, expected {} (an extension marker on either operand makes the result extensible)", key, ext, want_ext));
@@ -390,7 +393,7 @@ fn invisible_only(m: &Model, ctx: &mut Ctx) {
 fn size_set_operations(m: &Model, ctx: &mut Ctx) {
     use std::collections::BTreeMap as Map;
     let consts = const_resolver(m);
-    let inl = inline_all(m, &["ASN1Value"]);
+    let inl = inline_all(m, &["ASN1Value", "SetOperation", "SubtypeElements", "ElementOrSetOperation"]);
     let Ok(fold) = m.find_fn(None, "fold_constraint_set", Some("per_visible")) else {
         ctx.fail_closed("C04.sizeops", "anchor not found: fold_constraint_set");
         return;
@@ -917,7 +920,7 @@ pub fn parser_chain(m: &Model, ev: &Evaluator, consts: &dyn Fn(&str) -> Option<V
 /// hull of the union of the intersections.
 pub fn precedence(m: &Model, ctx: &mut Ctx, rule: &str, four: bool) {
     let consts = const_resolver(m);
-    let inl = inline_all(m, &["ASN1Value"]);
+    let inl = inline_all(m, &["ASN1Value", "SetOperation", "SubtypeElements", "ElementOrSetOperation"]);
     // the helpers of the folding that take a set operation and no closure are pure functions of plain data: their results are
     // memoised (the chains share most of their sub-folds)
     let pure: Vec<String> = m.fns.iter().filter(|f| f.self_ty.is_none() && f.module.contains("per_visible") && !f.module.contains("tests") && f.name != "fold_constraint_set"
